@@ -73,6 +73,10 @@ def gen_cases(rng, tier):
                 else:
                     fr.append([pts[cur[a]][k] * 512 + rng.randint(-70, 70) for k in range(3)])
             li.append(fr)
+        # every frame-to-frame step must stay clearly below half a cell in each component, otherwise unwrapping is ambiguous and
+        # quantities built on displacements (metrics) need not be translation invariant (the tie hypothesis of C01)
+        if any(abs(((li[t + 1][a][k] - li[t][a][k] + DEN // 2) % DEN) - DEN // 2) > 0.45 * DEN for t in range(T - 1) for a in range(nli) for k in range(3)):
+            continue
         fw0 = [[rng.randint(0, DEN - 1) for _ in range(3)] for _ in range(nfw)]
         fw = [[[fw0[b][k] + rng.randint(-30, 30) for k in range(3)] for b in range(nfw)] for _ in range(T)]
         perm_a = list(range(nli))
